@@ -43,6 +43,9 @@ type c38Rule struct {
 	Conds      []c38Cond `json:"conds,omitempty"`
 	Sub        string    `json:"sub,omitempty"` // nested sampler type ("" = none)
 	SubRate    int64     `json:"subrate,omitempty"`
+	SubSecs    int64     `json:"subsecs,omitempty"`  // nested legacy parameter in SECONDS: ClearFrequencySec (Dynamic, TotalThroughput) / AdjustmentInterval (EMADynamic)
+	SubDelay   int64     `json:"subdelay,omitempty"` // nested EMADynamic BurstDetectionDelay
+	SubUTL     bool      `json:"subutl,omitempty"`   // nested UseTraceLength
 }
 type c38Sampler struct {
 	Name    string           `json:"name"`             // "" = default section
@@ -527,6 +530,11 @@ func c38GenSampler(r *rand.Rand, name string) c38Sampler {
 			case 1:
 				ru.Sub = []string{"EMADynamicSampler", "DynamicSampler", "TotalThroughputSampler"}[r.Intn(3)]
 				ru.SubRate = int64(2 + r.Intn(50))
+				ru.SubSecs = int64(5 + r.Intn(120))
+				ru.SubUTL = r.Intn(2) == 0
+				if ru.Sub == "EMADynamicSampler" {
+					ru.SubDelay = int64(2 + r.Intn(8))
+				}
 			default:
 				ru.SampleRate = int64(1 + r.Intn(200))
 			}
@@ -604,14 +612,23 @@ func c38RulesTOML(ss []c38Sampler) string {
 				}
 			}
 			if ru.Sub != "" {
-				rate := "GoalSampleRate"
+				rate, secs := "GoalSampleRate", "AdjustmentInterval"
 				switch ru.Sub {
 				case "DynamicSampler":
-					rate = "SampleRate"
+					rate, secs = "SampleRate", "ClearFrequencySec"
 				case "TotalThroughputSampler":
-					rate = "GoalThroughputPerSec"
+					rate, secs = "GoalThroughputPerSec", "ClearFrequencySec"
 				}
 				fmt.Fprintf(&b, "%s  [%srule.sampler.%s]\n%s    %s = %d\n%s    FieldList = [\"status_code\"]\n", ind, pre, ru.Sub, ind, rate, ru.SubRate, ind)
+				if ru.SubSecs != 0 {
+					fmt.Fprintf(&b, "%s    %s = %d\n", ind, secs, ru.SubSecs)
+				}
+				if ru.SubDelay != 0 {
+					fmt.Fprintf(&b, "%s    BurstDetectionDelay = %d\n", ind, ru.SubDelay)
+				}
+				if ru.SubUTL {
+					fmt.Fprintf(&b, "%s    UseTraceLength = true\n", ind)
+				}
 			}
 		}
 	}
@@ -723,19 +740,47 @@ func c38Lookup(c config.Config, path string) (reflect.Value, bool) {
 	return v, true
 }
 
-// canonical text of one rule as the v2 loader holds it / as the v1 file says it
-func c38RuleCanonV1(ru c38Rule) string {
+// one rule as a Gallina record: text = name / rate / drop / conditions, nested sampler type and integer parameters
+func c38RuleTerm(text, subType string, params [][2]string) string {
+	ps := make([]string, len(params))
+	for i, p := range params {
+		ps[i] = cq.Pair(cq.Str(p[0]), p[1])
+	}
+	return fmt.Sprintf("{| ru_text := %s; ru_sub_type := %s; ru_sub_params := %s |}", cq.Str(text), cq.Str(subType), cq.List(ps))
+}
+func c38B2Z(b bool) string {
+	if b {
+		return cq.Z(1)
+	}
+	return cq.Z(0)
+}
+func c38RuleV1(ru c38Rule) string {
 	var cs []string
 	for _, c := range ru.Conds {
 		cs = append(cs, c.Field+" "+c.Op+" "+strings.Trim(c.Value, `"`))
 	}
-	sub := ""
+	text := fmt.Sprintf("%s|rate=%d|drop=%v|%s", ru.Name, ru.SampleRate, ru.Drop, strings.Join(cs, ";"))
+	var ps [][2]string
 	if ru.Sub != "" {
-		sub = fmt.Sprintf("%s:%d", ru.Sub, ru.SubRate)
+		rate, secs := "GoalSampleRate", "AdjustmentInterval"
+		switch ru.Sub {
+		case "DynamicSampler":
+			rate, secs = "SampleRate", "ClearFrequencySec"
+		case "TotalThroughputSampler":
+			rate, secs = "GoalThroughputPerSec", "ClearFrequencySec"
+		}
+		ps = append(ps, [2]string{rate, cq.Z(ru.SubRate)})
+		if ru.SubSecs != 0 {
+			ps = append(ps, [2]string{secs, cq.Z(ru.SubSecs)})
+		}
+		if ru.SubDelay != 0 {
+			ps = append(ps, [2]string{"BurstDetectionDelay", cq.Z(ru.SubDelay)})
+		}
+		ps = append(ps, [2]string{"UseTraceLength", c38B2Z(ru.SubUTL)})
 	}
-	return fmt.Sprintf("%s|rate=%d|drop=%v|%s|%s", ru.Name, ru.SampleRate, ru.Drop, strings.Join(cs, ";"), sub)
+	return c38RuleTerm(text, ru.Sub, ps)
 }
-func c38RuleCanonV2(ru *config.RulesBasedSamplerRule) string {
+func c38RuleV2(ru *config.RulesBasedSamplerRule) string {
 	var cs []string
 	for _, c := range ru.Conditions {
 		val := ""
@@ -744,20 +789,29 @@ func c38RuleCanonV2(ru *config.RulesBasedSamplerRule) string {
 		}
 		cs = append(cs, c.Field+" "+c.Operator+" "+val)
 	}
+	text := fmt.Sprintf("%s|rate=%d|drop=%v|%s", ru.Name, ru.SampleRate, ru.Drop, strings.Join(cs, ";"))
 	sub := ""
+	var ps [][2]string
 	if ru.Sampler != nil {
 		switch {
 		case ru.Sampler.EMADynamicSampler != nil:
-			sub = fmt.Sprintf("EMADynamicSampler:%d", ru.Sampler.EMADynamicSampler.GoalSampleRate)
+			x := ru.Sampler.EMADynamicSampler
+			sub = "EMADynamicSampler"
+			ps = [][2]string{{"GoalSampleRate", cq.Z(int64(x.GoalSampleRate))}, {"AdjustmentInterval", cq.Z(int64(x.AdjustmentInterval))},
+				{"BurstDetectionDelay", cq.Z(int64(x.BurstDetectionDelay))}, {"UseTraceLength", c38B2Z(x.UseTraceLength)}}
 		case ru.Sampler.DynamicSampler != nil:
-			sub = fmt.Sprintf("DynamicSampler:%d", ru.Sampler.DynamicSampler.SampleRate)
+			x := ru.Sampler.DynamicSampler
+			sub = "DynamicSampler"
+			ps = [][2]string{{"SampleRate", cq.Z(x.SampleRate)}, {"ClearFrequency", cq.Z(int64(x.ClearFrequency))}, {"UseTraceLength", c38B2Z(x.UseTraceLength)}}
 		case ru.Sampler.TotalThroughputSampler != nil:
-			sub = fmt.Sprintf("TotalThroughputSampler:%d", ru.Sampler.TotalThroughputSampler.GoalThroughputPerSec)
+			x := ru.Sampler.TotalThroughputSampler
+			sub = "TotalThroughputSampler"
+			ps = [][2]string{{"GoalThroughputPerSec", cq.Z(int64(x.GoalThroughputPerSec))}, {"ClearFrequency", cq.Z(int64(x.ClearFrequency))}, {"UseTraceLength", c38B2Z(x.UseTraceLength)}}
 		default:
 			sub = "other"
 		}
 	}
-	return fmt.Sprintf("%s|rate=%d|drop=%v|%s|%s", ru.Name, ru.SampleRate, ru.Drop, strings.Join(cs, ";"), sub)
+	return c38RuleTerm(text, sub, ps)
 }
 
 func c38Run(raw json.RawMessage) (Case, error) {
@@ -792,6 +846,7 @@ func c38Run(raw json.RawMessage) (Case, error) {
 	out1, ok1 := run("config", "--input", p("v1.toml"), "--output", p("v2.yaml"))
 	out2, ok2 := run("rules", "--input", p("rules1.toml"), "--output", p("rules2.yaml"))
 	converted := ok1 && ok2
+	crashed := strings.Contains(out1, "panic:") || strings.Contains(out2, "panic:") || strings.Contains(out1, "goroutine 1 [") || strings.Contains(out2, "goroutine 1 [")
 	accepted := false
 	var cfg config.Config
 	loadErr := ""
@@ -871,7 +926,7 @@ func c38Run(raw json.RawMessage) (Case, error) {
 		}
 		var v1rules []string
 		for _, ru := range s.Rules {
-			v1rules = append(v1rules, c38RuleCanonV1(ru))
+			v1rules = append(v1rules, c38RuleV1(ru))
 		}
 		obsType, obsParams, obsFields, obsRules := "<rejected>", []string{}, []string{}, []string{}
 		if accepted {
@@ -881,7 +936,7 @@ func c38Run(raw json.RawMessage) (Case, error) {
 				obsType = tn
 				if ch.RulesBasedSampler != nil {
 					for _, ru := range ch.RulesBasedSampler.Rules {
-						obsRules = append(obsRules, c38RuleCanonV2(ru))
+						obsRules = append(obsRules, c38RuleV2(ru))
 					}
 				} else {
 					b, _ := yaml.Marshal(sc)
@@ -914,7 +969,7 @@ func c38Run(raw json.RawMessage) (Case, error) {
 			}
 		}
 		sampTerms = append(sampTerms, fmt.Sprintf("{| sm_name := %s; sm_type := %s; sm_params := %s; sm_fields := %s; sm_rules := %s; sm_obs_type := %s; sm_obs_params := %s; sm_obs_fields := %s; sm_obs_rules := %s |}",
-			cq.Str(name), cq.Str(s.Type), cq.List(ps), cq.ListStr(s.Fields), cq.ListStr(v1rules), cq.Str(obsType), cq.List(obsParams), cq.ListStr(obsFields), cq.ListStr(obsRules)))
+			cq.Str(name), cq.Str(s.Type), cq.List(ps), cq.ListStr(s.Fields), cq.List(v1rules), cq.Str(obsType), cq.List(obsParams), cq.ListStr(obsFields), cq.List(obsRules)))
 		human = append(human, fmt.Sprintf("sampler %s: v1 %s %v %v %v -> v2 %s %v %v %v", name, s.Type, s.Params, s.Fields, v1rules, obsType, obsParams, obsFields, obsRules))
 		if s.Type == "" {
 			tags["section-with-only-samplerate"] = true
@@ -929,8 +984,11 @@ func c38Run(raw json.RawMessage) (Case, error) {
 	if accepted {
 		nsam = len(cfg.GetAllSamplerRules().Samplers)
 	}
-	coq := fmt.Sprintf("{| c_converted := %s; c_accepted := %s; c_settings := %s; c_samplers := %s; c_nsamplers := %s |}",
-		cq.Bool(converted), cq.Bool(accepted), cq.List(setTerms), cq.List(sampTerms), cq.N(uint64(nsam)))
+	if crashed {
+		tags["converter-crashed"] = true
+	}
+	coq := fmt.Sprintf("{| c_crashed := %s; c_converted := %s; c_accepted := %s; c_settings := %s; c_samplers := %s; c_nsamplers := %s |}",
+		cq.Bool(crashed), cq.Bool(converted), cq.Bool(accepted), cq.List(setTerms), cq.List(sampTerms), cq.N(uint64(nsam)))
 	var tl []string
 	for t := range tags {
 		tl = append(tl, t)
